@@ -78,7 +78,7 @@ def run(ck, tier, seed):
         if o.get("skipped"):
             ck.cov["not_run_unbounded_growth"] = ck.cov.get("not_run_unbounded_growth", 0) + 1
             continue
-        if "parse" in o:
+        if "parse" in o or o.get("crash"):
             continue
         ck.cov["evaluations"] += 1
         vmo = o.get("vm1")
